@@ -519,21 +519,28 @@ func (eng *Engine) computeRefinements() {
 			continue
 		}
 		iname, mname := rest[:i], rest[i+1:]
-		j := strings.Index(iname, ".")
-		if j < 0 {
-			continue
-		}
-		ip := eng.pkgByName(iname[:j])
-		if ip == nil {
-			continue
-		}
-		obj := ip.Scope().Lookup(iname[j+1:])
-		if obj == nil {
-			continue
-		}
-		it, ok := obj.Type().Underlying().(*types.Interface)
-		if !ok {
-			continue
+		var it *types.Interface
+		var ip *types.Package
+		if iname == "error" {
+			it = types.Universe.Lookup("error").Type().Underlying().(*types.Interface)
+		} else {
+			j := strings.Index(iname, ".")
+			if j < 0 {
+				continue
+			}
+			ip = eng.pkgByName(iname[:j])
+			if ip == nil {
+				continue
+			}
+			obj := ip.Scope().Lookup(iname[j+1:])
+			if obj == nil {
+				continue
+			}
+			var ok bool
+			it, ok = obj.Type().Underlying().(*types.Interface)
+			if !ok {
+				continue
+			}
 		}
 		for _, sp := range eng.prog.AllPackages() {
 			if !strings.HasPrefix(sp.Pkg.Path(), "github.com/DemoHn/Zn") {
